@@ -71,8 +71,16 @@ func newC16World(r *rng.R) *c16World {
 		w.tickets = append(w.tickets, m.TicketsForThirdParty(c16TPLoc)[0])
 	}
 	o, _ := macaroon.New([]byte{9}, c16First, w.key)
-	o.Add3P(macaroon.NewEncryptionKey(), c16TPLoc)
+	oka := macaroon.NewEncryptionKey()
+	o.Add3P(oka, c16TPLoc)
 	w.foreign = o.TicketsForThirdParty(c16TPLoc)[0]
+	// the other third party (same process, its own key) has opened and served that ticket before: this service, with its
+	// key, still cannot open it
+	for k := 0; k < 3; k++ {
+		if _, _, err := macaroon.DischargeTicket(oka, c16TPLoc, w.foreign); err != nil {
+			panic("setup: the rightful third party cannot open its ticket: " + err.Error())
+		}
+	}
 	return w
 }
 
